@@ -1,11 +1,28 @@
 (* C01 — every partitioner gives every element a part id below the requested
-   count, without panicking or hanging.  One theorem per algorithm, about the
-   model of that algorithm (the same models the checks C03, C09, C10, C11, C12,
-   C13 tie to the code); this file only collects them. *)
+   count, without panicking or hanging.
+
+   One theorem per algorithm of the property's list, each ABOUT THE MODEL OF
+   THAT ALGORITHM (the same model, at the same generated constants, that the
+   check of the algorithm's own property ties to the code: C03 Rcb/Rib, C09
+   HilbertCurve/ZCurve, C10 Grid::rcb, C11 MultiJagged, C12 Greedy/KarmarkarKarp,
+   C13 CompleteKarmarkarKarp), each of the shape
+
+     usage contract -> the model returns Ok ids /\ length ids = n /\ every id < parts
+
+   (Ok excludes Panic and OutOfFuel).  This file only collects: every theorem
+   is closed by [exact] of a lemma of Proofs/C01Collect.v, which projects the
+   theorems of the algorithm's own development.  Where that development proves
+   only part of the statement the theorem is named [..._partial] and the
+   comment says what is missing.  Names are qualified (Rcb.rcb, SfcPart.zcurve,
+   ...) because the developments reuse short names. *)
 From Coupe Require Import Lib.Prelude Lib.SFloat Lib.Report.
 From Coupe Require Import Model.RandomPart Run.RunC01 Proofs.C01Proofs.
-From Coupe Require Import Model.Ckk Proofs.CkkProofs Gen.CkkGen.
-From Coq Require Import Floats.SpecFloat.
+From Coupe Require Proofs.C01Collect.
+From Coupe Require Model.Rcb Proofs.RcbInst Model.SfcPart Proofs.ZCurveProofs Proofs.SortingProofs
+  Model.MultiJagged Proofs.MultiJaggedProofs Model.NumPart Model.Greedy Model.Kk Proofs.NumPartLemmas Lib.Sorting
+  Model.Ckk Model.GridRcb Proofs.GridRcbTree Proofs.GridRcbMedian.
+From Coq Require Import Floats.SpecFloat Permutation QArith.QArith.
+Import C01Collect.
 Open Scope Z_scope.
 
 (* the checker run on every implementation output decides the property's conclusion *)
@@ -14,36 +31,278 @@ Theorem C01_checker : forall parts n p,
 Proof. exact check_ids_spec. Qed.
 Print Assumptions C01_checker.
 
-(* Random *)
+(* ---------------------------------------------------------------- Rcb, Rib *)
+
+(* [RcbC.rcb_impl] = Rcb.rcb at the four flags the translator read from
+   recursive_bisection.rs (Gen/RcbGen.v), as in Properties/C03.v. *)
+
+(* Without any hypothesis on the float operations, for every fuel, schedule
+   and tolerance: IF the model returns Ok, one id has been written per point
+   and every id is below 2^iter_count. *)
+Theorem C01_rcb_range : forall fuel sched D k tol pts ws p0 p,
+  RcbInst.coords_ok pts -> RcbC.rcb_impl fuel sched D k tol pts ws p0 = Ok p ->
+  length p = length pts /\ (pts <> [] -> Forall (fun i => (i < 2 ^ N.of_nat k)%N) p).
+Proof. exact RcbC.rcb_range. Qed.
+Print Assumptions C01_rcb_range.
+
+(* PARTIAL.  Under the contract (D >= 1 coordinates per point, binary32 images
+   not NaN, matching lengths) the model returns Ok for EVERY schedule -- no
+   panic, no OutOfFuel -- with every id below 2^iter_count, PROVIDED there is
+   a bounded order embedding [rank] of a set [good] of binary32 values that is
+   closed under the midpoint expression of the source and contains the bounds
+   of the root bounding box; the fuel must exceed the width of the embedding.
+   What is missing: the three hypotheses on [good]/[rank] are true of IEEE
+   binary32 (good = finite, rank = sign-magnitude reading of the bits, width
+   < 2^32) but are NOT discharged for SpecFloat in Proofs/RcbTotal.v, so
+   termination and panic-freedom of the cut search rest on them; the fuel
+   bound is a termination bound, not a tight one (real runs need < 300
+   iterations); weights are i64 (Z), f64 weights are not modelled. *)
+Theorem C01_rcb_partial :
+  forall (good : spec_float -> bool) (rank : spec_float -> Z) (rlo rhi : Z),
+  (forall a b, good a = true -> good b = true ->
+     good (Rcb.f32_mid (Rcb.v_safe_mid RcbC.rcb_variant) a b) = true) ->
+  (forall x y, good x = true -> good y = true -> flt x y = true -> rank x < rank y) ->
+  (forall x, good x = true -> rlo <= rank x <= rhi) ->
+  forall fuel (sched : N -> nat -> Rcb.stree) D k tol pts ws p0,
+  (0 < D)%nat -> Forall (fun pt => length pt = D) pts -> RcbInst.coords_ok pts ->
+  length ws = length p0 -> length pts = length p0 ->
+  (forall bb, Rcb.bbox32 D 0 pts = Some bb ->
+     Forall (fun b => good (fst b) = true /\ good (snd b) = true) bb) ->
+  (1 <= fuel)%nat -> Z.of_nat fuel > rhi - rlo ->
+  exists p, RcbC.rcb_impl fuel sched D k tol pts ws p0 = Ok p
+            /\ length p = length pts /\ Forall (fun i => (i < 2 ^ N.of_nat k)%N) p.
+Proof. exact RcbC.rcb_collect. Qed.
+Print Assumptions C01_rcb_partial.
+
+(* Rib = the same function applied to the points rotated into the inertia
+   frame.  PARTIAL for the same reason as Rcb, and additionally: the rotation
+   (nalgebra's eigen-decomposition and Householder reflection) is not modelled;
+   [rotated] is the array recorded by the `rib_points` hook, so the statement is
+   about Rib given ANY rotated point set. *)
+Theorem C01_rib_partial :
+  forall (good : spec_float -> bool) (rank : spec_float -> Z) (rlo rhi : Z),
+  (forall a b, good a = true -> good b = true ->
+     good (Rcb.f32_mid (Rcb.v_safe_mid RcbC.rcb_variant) a b) = true) ->
+  (forall x y, good x = true -> good y = true -> flt x y = true -> rank x < rank y) ->
+  (forall x, good x = true -> rlo <= rank x <= rhi) ->
+  forall fuel (sched : N -> nat -> Rcb.stree) D k tol rotated ws p0,
+  (0 < D)%nat -> Forall (fun pt => length pt = D) rotated -> RcbInst.coords_ok rotated ->
+  length ws = length p0 -> length rotated = length p0 ->
+  (forall bb, Rcb.bbox32 D 0 rotated = Some bb ->
+     Forall (fun b => good (fst b) = true /\ good (snd b) = true) bb) ->
+  (1 <= fuel)%nat -> Z.of_nat fuel > rhi - rlo ->
+  exists p, RcbC.rcb_impl fuel sched D k tol rotated ws p0 = Ok p
+            /\ length p = length rotated /\ Forall (fun i => (i < 2 ^ N.of_nat k)%N) p.
+Proof. exact RcbC.rcb_collect. Qed.
+Print Assumptions C01_rib_partial.
+
+(* ------------------------------------------------------------ HilbertCurve *)
+
+(* [SfcC.hilbert_impl_2d/3d] = SfcPart.hilbert_partition at SPLIT_TOLERANCE and
+   MAX_ORDER of the source (Gen/SfcGen.v), as in Properties/C09.v.  [idx] =
+   the curve index of every point (the encoders are C08's subject).
+
+   PARTIAL.  Inside the contract (one index per element, part_count >= 1,
+   accepted order): (a) for EVERY part count the model never panics and never
+   answers with an error: it returns Ok with one id < part_count per element,
+   or runs out of fuel; (b) for part_count <= 2, u64 indices and fuel >= 66 it
+   returns Ok.  What is missing: termination of `weighted_quantiles` for
+   part_count >= 3 (no decreasing measure is known, docs/C09.md); the "no
+   hang" clause for those part counts is NOT proved. *)
+Theorem C01_hilbert_2d_partial : forall order fuel idx ws k p0,
+  length idx = length p0 -> (1 <= k)%nat -> (order <= SfcGen.hilbert_max_order_2d)%N ->
+  ((exists p, SfcC.hilbert_impl_2d order fuel idx ws k p0 = Ok p
+              /\ length p = length p0 /\ Forall (fun x => (x < N.of_nat k)%N) p)
+   \/ SfcC.hilbert_impl_2d order fuel idx ws k p0 = OutOfFuel)
+  /\ (Forall (fun x => (x < 2 ^ 64)%N) idx -> (k <= 2)%nat -> (66 <= fuel)%nat ->
+      exists p, SfcC.hilbert_impl_2d order fuel idx ws k p0 = Ok p
+                /\ length p = length p0 /\ Forall (fun x => (x < N.of_nat k)%N) p).
+Proof. exact (SfcC.hilbert_collect _ _). Qed.
+Print Assumptions C01_hilbert_2d_partial.
+
+Theorem C01_hilbert_3d_partial : forall order fuel idx ws k p0,
+  length idx = length p0 -> (1 <= k)%nat -> (order <= SfcGen.hilbert_max_order_3d)%N ->
+  ((exists p, SfcC.hilbert_impl_3d order fuel idx ws k p0 = Ok p
+              /\ length p = length p0 /\ Forall (fun x => (x < N.of_nat k)%N) p)
+   \/ SfcC.hilbert_impl_3d order fuel idx ws k p0 = OutOfFuel)
+  /\ (Forall (fun x => (x < 2 ^ 64)%N) idx -> (k <= 2)%nat -> (66 <= fuel)%nat ->
+      exists p, SfcC.hilbert_impl_3d order fuel idx ws k p0 = Ok p
+                /\ length p = length p0 /\ Forall (fun x => (x < N.of_nat k)%N) p).
+Proof. exact (SfcC.hilbert_collect _ _). Qed.
+Print Assumptions C01_hilbert_3d_partial.
+
+(* ------------------------------------------------------------------ ZCurve *)
+
+(* [SfcC.zcurve_impl_2d/3d] = SfcPart.zcurve at the chunk guard and the order
+   limit of the source.  For EVERY quadrant function with values < 2^D (the
+   box arithmetic is data: `mbr.region(p)` recorded by the hook) and EVERY sort
+   oracle (any permutation sorted by the key; ties free): inside the contract
+   the model returns Ok (it has no loop on fuel), one id < part_count per
+   point -- more parts than points included. *)
+Theorem C01_zcurve_2d : forall q sorter order k n p0,
+  ZCurveProofs.sort_contract sorter -> (forall path x, (q path x < 4)%N) ->
+  length p0 = n -> (order <= SfcGen.zcurve_max_order_2d)%nat -> (1 <= k)%nat ->
+  exists p, SfcC.zcurve_impl_2d q sorter order k n p0 = Ok p
+            /\ length p = n /\ Forall (fun x => (x < N.of_nat k)%N) p.
+Proof. exact SfcC.zcurve_collect_2d. Qed.
+Print Assumptions C01_zcurve_2d.
+
+Theorem C01_zcurve_3d : forall q sorter order k n p0,
+  ZCurveProofs.sort_contract sorter -> (forall path x, (q path x < 8)%N) ->
+  length p0 = n -> (order <= SfcGen.zcurve_max_order_3d)%nat -> (1 <= k)%nat ->
+  exists p, SfcC.zcurve_impl_3d q sorter order k n p0 = Ok p
+            /\ length p = n /\ Forall (fun x => (x < N.of_nat k)%N) p.
+Proof. exact SfcC.zcurve_collect_3d. Qed.
+Print Assumptions C01_zcurve_3d.
+
+(* ------------------------------------------------------------- MultiJagged *)
+
+(* For every dimension, root oracle (root_ok; libm powf is not modelled), sort
+   oracle, block decomposition of rayon's scan and order in which the leaves
+   draw their number from the atomic counter (ord_ok).
+
+   PARTIAL (1): for EVERY arithmetic, binary64 included: IF the model returns
+   Ok, one id < part_count has been written per element.  What is missing:
+   that the binary64 model does return -- no-panic is proved for exact
+   arithmetic only (below); it would need monotonicity of the f64 cuts. *)
+Theorem C01_multijagged_range_partial :
+  forall (A : MultiJagged.arith) (D npts : nat) (wts : list (MultiJagged.num A)) sorter blk cxlt root ord (k : N) (m : nat) p0 p,
+  MultiJaggedProofs.root_ok root -> MultiJaggedProofs.sorter_ok sorter cxlt ->
+  MultiJaggedProofs.ord_ok ord (N.to_nat k) ->
+  (1 <= k)%N -> (k < 2 ^ 60)%N -> (1 <= m)%nat -> length p0 = npts ->
+  MultiJagged.multi_jagged A D npts wts sorter blk root ord k m p0 = Ok p ->
+  length p = npts /\ Forall (fun x => (x < k)%N) p.
+Proof. exact MjC.mj_range. Qed.
+Print Assumptions C01_multijagged_range_partial.
+
+(* PARTIAL (2): at exact arithmetic (what the code computes when no f64
+   operation rounds; weights >= 0) the model returns Ok -- no panic site is
+   reachable, and the model has no loop on fuel -- with every id < part_count. *)
+Theorem C01_multijagged_exact_partial :
+  forall D npts (wq : list Q) sorter blk cxlt root ord (k : N) (m : nat) p0,
+  MultiJaggedProofs.root_ok root -> MultiJaggedProofs.sorter_ok sorter cxlt ->
+  MultiJaggedProofs.ord_ok ord (N.to_nat k) ->
+  (1 <= k)%N -> (k < 2 ^ 60)%N -> (1 <= m)%nat -> (1 <= D)%nat ->
+  Forall (Qle 0) wq -> length wq = npts -> length p0 = npts ->
+  exists p, MultiJagged.multi_jagged MultiJagged.QA D npts wq sorter blk root ord k m p0 = Ok p
+            /\ length p = npts /\ Forall (fun x => (x < k)%N) p.
+Proof. exact MjC.mj_collect_exact. Qed.
+Print Assumptions C01_multijagged_exact_partial.
+
+(* ------------------------------------------------------------------ Greedy *)
+
+(* matching lengths, part_count >= 1, ANY integer weights: Ok (the model has no
+   loop on fuel and no reachable panic site), one id < part_count per element *)
+Theorem C01_greedy : forall ws k p0, length ws = length p0 -> (1 <= k)%nat ->
+  exists p, Greedy.greedy ws k p0 = Ok p /\ length p = length p0
+            /\ Forall (fun x => (x < N.of_nat k)%N) p.
+Proof. exact NumC.greedy_collect. Qed.
+Print Assumptions C01_greedy.
+
+(* ----------------------------------------------------------- KarmarkarKarp *)
+
+(* for EVERY weight-descending sort of the merged rows (tie order of
+   sort_unstable), non-negative weights, part_count >= 1, matching lengths *)
+Theorem C01_kk : forall srt, (forall l, Permutation (srt l) l) -> (forall l, NumPartLemmas.descZ (NumPartLemmas.wts (srt l))) ->
+  forall ws k p0, Forall (fun w => 0 <= w) ws -> (1 <= k)%nat -> length ws = length p0 ->
+  exists p, Kk.kk_partition srt ws k p0 = Ok p /\ length p = length p0
+            /\ Forall (fun x => (x < N.of_nat k)%N) p.
+Proof. exact NumC.kk_collect. Qed.
+Print Assumptions C01_kk.
+
+(* --------------------------------------------------- CompleteKarmarkarKarp *)
+
+(* [CkkC.ckk_impl] = Ckk.ckk at the literal read from ckk.rs, as in
+   Properties/C13.v.  Ok => two-way ids for every element; the only other
+   answer is NotFound; never a panic, never out of fuel *)
+Theorem C01_ckk : forall ws tol p0,
+  Forall (fun w => 0 <= w) ws -> ws <> [] -> Ckk.tol_int (sumZ ws) tol <> None -> length ws = length p0 ->
+  (exists p, CkkC.ckk_impl ws tol p0 = Ok p /\ length p = length ws
+             /\ Forall (fun x => (x < 2)%N) p)
+  \/ CkkC.ckk_impl ws tol p0 = Err NotFound.
+Proof. exact CkkC.ckk_collect. Qed.
+Print Assumptions C01_ckk.
+
+(* --------------------------------------------------------------- Grid::rcb *)
+
+(* [GridC.gridrcb_impl] = GridRcb.grid_rcb at the literals of the source
+   (Run.RunC10.cfg_impl), as in Properties/C10.v.  For EVERY pool size T (1
+   included), both weight types (fw), every iter_count.
+
+   PARTIAL (1), axiom-free: 2-D and 3-D grids with sides >= 1, non-negative
+   integer weights, fuel with side < 2^fuel; premise: the float facts about the
+   two thresholds (thr_ok_b, decidable) for every total 0..sum.  Then Ok, one
+   id < 2^iter_count per cell. *)
+Theorem C01_grid_rcb_partial : forall fuel T fw ds ws k,
+  GridRcbTree.wf_grid ds ws -> Forall (fun s => (1 <= s)%nat) ds -> Forall (fun w => 0 <= w) ws ->
+  (forall t, 0 <= t <= sumZ ws -> GridRcbMedian.thr_ok_b fw GridC.tol t = true) ->
+  Forall (fun s => (s < 2 ^ fuel)%nat) ds ->
+  exists ids, GridC.gridrcb_impl fuel T fw ds ws k (GridRcb.glen ds) = Ok ids
+              /\ length ids = GridRcb.glen ds /\ Forall (fun q => (q < 2 ^ N.of_nat k)%N) ids.
+Proof. exact GridC.grid_collect. Qed.
+Print Assumptions C01_grid_rcb_partial.
+
+(* PARTIAL (2): the premise on the thresholds is a theorem for total weights
+   below 2^46 (Flocq; classical-reals axioms).  What is missing with respect
+   to the property's contract ("sums that do not overflow"): totals in
+   [2^46, 2^63); f64 weights that are not integers. *)
+Theorem C01_grid_rcb_2d_partial : forall fuel T fw w h ws k,
+  (1 <= w)%nat -> (1 <= h)%nat -> length ws = (w * h)%nat -> Forall (fun x => 0 <= x) ws -> sumZ ws < 2 ^ 46 ->
+  (w < 2 ^ fuel)%nat -> (h < 2 ^ fuel)%nat ->
+  exists ids, GridC.gridrcb_impl fuel T fw [w; h] ws k (w * h) = Ok ids
+              /\ length ids = (w * h)%nat /\ Forall (fun q => (q < 2 ^ N.of_nat k)%N) ids.
+Proof. exact GridC.grid_collect_2d. Qed.
+Print Assumptions C01_grid_rcb_2d_partial.
+
+Theorem C01_grid_rcb_3d_partial : forall fuel T fw w h d ws k,
+  (1 <= w)%nat -> (1 <= h)%nat -> (1 <= d)%nat -> length ws = (w * h * d)%nat ->
+  Forall (fun x => 0 <= x) ws -> sumZ ws < 2 ^ 46 ->
+  (w < 2 ^ fuel)%nat -> (h < 2 ^ fuel)%nat -> (d < 2 ^ fuel)%nat ->
+  exists ids, GridC.gridrcb_impl fuel T fw [w; h; d] ws k (w * h * d) = Ok ids
+              /\ length ids = (w * h * d)%nat /\ Forall (fun q => (q < 2 ^ N.of_nat k)%N) ids.
+Proof. exact GridC.grid_collect_3d. Qed.
+Print Assumptions C01_grid_rcb_3d_partial.
+
+(* ------------------------------------------------------------------ Random *)
 Theorem C01_random : forall k draws, (1 <= k)%N ->
   exists p, random_part k draws = Ok p /\ length p = length draws /\ Forall (fun x => (x < k)%N) p.
 Proof. exact random_ids_lt. Qed.
 Print Assumptions C01_random.
 
-(* CompleteKarmarkarKarp: Ok => two-way ids for every element; never a panic, never out of fuel *)
-Theorem C01_ckk : forall ws tol p0,
-  Forall (fun w => 0 <= w) ws -> ws <> [] -> tol_int (sumZ ws) tol <> None -> length ws = length p0 ->
-  (exists p, ckk ckk_sum_branch_separate ws tol p0 = Ok p /\ length p = length ws
-             /\ Forall (fun x => (x < 2)%N) p)
-  \/ ckk ckk_sum_branch_separate ws tol p0 = Err NotFound.
-Proof.
-  intros ws tol p0 Hnn Hne Htol Hlen.
-  destruct (ckk ckk_sum_branch_separate ws tol p0) as [p|e|s|] eqn:E.
-  - left. exists p. destruct (ckk_sound ws tol p0 p Hnn Hne E) as [t [_ [_ [Hl [Htw _]]]]].
-    repeat split; auto. unfold two_way in Htw. rewrite Forall_forall in *. intros x Hx.
-    specialize (Htw x Hx). lia.
-  - right. destruct (ckk_inv _ _ _ _ _ E Hne) as [[_ C]|[_ [[C _]|[t [_ HR]]]]]; try congruence.
-    destruct (ckk_rec _ _ _ t []) as [[[last stps]|]|]; try congruence.
-    destruct (Nat.ltb last (length p0)); [|discriminate].
-    exfalso. clear -HR. revert HR. generalize (set_nth p0 last 0%N).
-    induction stps as [|s stps IH]; cbn; intros q HR; [discriminate|].
-    destruct (nth_opt q (sa s)); [|discriminate].
-    destruct (Nat.ltb (sb s) (length q)); [|discriminate].
-    destruct (separate s); [destruct (n <=? 1)%N; [|discriminate]|]; eapply IH; eauto.
-  - exfalso. exact (ckk_no_panic ws tol p0 s Hnn Htol E).
-  - exfalso. exact (ckk_terminates _ ws tol p0 E).
-Qed.
-Print Assumptions C01_ckk.
-
+(* ------------------------------------------------------------ non-vacuity *)
 Example C01_nonvacuous : random_part 3 [7;8;9;10]%N = Ok [1;2;0;1]%N.
 Proof. reflexivity. Qed.
+
+(* the hypotheses of C01_rcb_partial are satisfiable: three coincident points
+   at the origin ("coincident points" of the property text), good = {+0},
+   rank = 0; the model bisects them once *)
+Definition ex_good (x : spec_float) : bool := match x with S754_zero false => true | _ => false end.
+Definition ex_origin : list (list spec_float) := repeat [S754_zero false; S754_zero false] 3.
+Example C01_nonvacuous_rcb_hyps :
+  (forall a b, ex_good a = true -> ex_good b = true ->
+     ex_good (Rcb.f32_mid (Rcb.v_safe_mid RcbC.rcb_variant) a b) = true)
+  /\ (forall x y, ex_good x = true -> ex_good y = true -> flt x y = true -> 0 < 0)
+  /\ (forall bb, Rcb.bbox32 2 0 ex_origin = Some bb ->
+        Forall (fun b => ex_good (fst b) = true /\ ex_good (snd b) = true) bb)
+  /\ RcbInst.coords_ok ex_origin
+  /\ RcbC.rcb_impl 1 Rcb.seq_sched 2 1 (f64_of_Z 0) ex_origin [1; 1; 1] [9; 9; 9]%N = Ok [0; 0; 0]%N.
+Proof.
+  split; [|split; [|split; [|split]]].
+  - intros [[|]| | |] [[|]| | |]; try discriminate; intros _ _; vm_compute; reflexivity.
+  - intros [[|]| | |] [[|]| | |]; try discriminate; intros _ _ H; vm_compute in H; discriminate.
+  - intros bb H. vm_compute in H. injection H as <-. repeat constructor.
+  - repeat constructor.
+  - vm_compute. reflexivity.
+Qed.
+
+(* runs of the other models inside their contracts: more parts than points
+   (ZCurve), one heavy element (Greedy, KarmarkarKarp), a quantile search *)
+Example C01_nonvacuous_runs :
+  SfcC.hilbert_impl_2d 3 100 [0;9;18;27;36;45;54;63]%N (repeat (f64_of_Z 1) 8) 4 (repeat 9%N 8)
+    = Ok [0;0;1;1;2;2;3;3]%N
+  /\ SfcC.zcurve_impl_2d (fun _ i => nth i [1;0]%N 0%N) Sorting.sort_by_key 2 5 2 [9;9]%N = Ok [1;0]%N
+  /\ Greedy.greedy [100;1;1;1] 3 [9;9;9;9]%N = Ok [2;1;0;1]%N
+  /\ Kk.kk_partition Kk.sort_stable_desc [100;1;1;1] 3 [9;9;9;9]%N = Ok [0;1;1;2]%N
+  /\ GridC.gridrcb_impl 41 1 false [4; 4]%nat (repeat 1 16) 2 16
+     = Ok [0; 0; 1; 1; 0; 0; 1; 1; 2; 2; 3; 3; 2; 2; 3; 3]%N.
+Proof. vm_compute. repeat split; reflexivity. Qed.
